@@ -265,6 +265,24 @@ def exec_op(ctx: Ctx, op: dict, rec: dict) -> Any:
         res["appends"] = [rows]
         res["file_op"] = True
         tx = t.new_transaction().begin()
+        if op.get("late"):
+            # the caller hands the file over TOO EARLY: it is still missing ("missing") or half written by the caller's
+            # own writer ("garbage") at the first append_files() call, which raises; the caller finishes the file and
+            # calls append_files() again on the SAME transaction
+            full = os.path.join(t.storage.base_path, rel) if hasattr(t.storage, "base_path") else None
+            if full is not None and op.get("raw"):
+                if op["late"] == "missing":
+                    seams.SIM_OS.remove(full)
+                else:
+                    f = seams.sim_open(full, "wb")
+                    f.write(b"PAR1 not a parquet file yet")
+                    f.close()
+                try:
+                    tx.append_files([df])
+                    res["late_accepted"] = True
+                except (FileNotFoundError, ValueError) as e:
+                    res["late_rejected"] = type(e).__name__
+                df, rows, rel = stage_prebuilt(t, sim, dict(op, age=0))
         tx.append_files([df])
         res["registered"] = True
         res["registered_g"] = sim.gstep
